@@ -19,12 +19,12 @@ import (
 // C06 — healing from an archive restores any damaged directory (DESIGN §5 C06).
 
 type c06Spec struct {
-	Build   string       `json:"build"`
-	Seed    uint64       `json:"seed"`
-	Damages []lib.Damage `json:"damages"`
-	Sched   string       `json:"sched"`
-	SchedSeed uint64     `json:"schedSeed"`
-	Procs   int          `json:"procs"`
+	Build     string       `json:"build"`
+	Seed      uint64       `json:"seed"`
+	Damages   []lib.Damage `json:"damages"`
+	Sched     string       `json:"sched"`
+	SchedSeed uint64       `json:"schedSeed"`
+	Procs     int          `json:"procs"`
 }
 
 func c06Cases(tier string, seed uint64, flavor string) []lib.Case {
@@ -238,9 +238,9 @@ var _ = bytes.Equal
 
 func init() {
 	lib.Register(&lib.Property{
-		ID:    "C06",
-		Level: "fault_enumeration",
-		Rule: "reference builds (nested dirs, symlinks incl. dangling and to a directory, empty files/dirs; small build with block-boundary sizes); damage = nothing (valid directory), every single damage of the C05 list (one representative per file/boundary class), subtree-hiding kind swaps (directory -> file, -> dangling symlink, -> symlink to a sibling with equal child names, -> symlink to another existing directory, file/symlink -> non-empty directory), directory emptied / removed, whole tree emptied / missing, random combinations of 2-5; each damaged tree is healed by Validate+HealPath from a zip made by wharf's CompressZip under schedules validator-first, healer-first (forced at the verif hooks, bounded waits) and seeded perturbation with GOMAXPROCS 1/4/16. Oracle: returned (quiescence detector), no error, every signed entry exact (independent tree comparison, extra files allowed), AssertValid nil; valid directory: inode/mtime/size/checksum unchanged. distinct = distinct (build, damage classes, schedule, GOMAXPROCS)",
+		ID:          "C06",
+		Level:       "fault_enumeration",
+		Rule:        "reference builds (nested dirs, symlinks incl. dangling and to a directory, empty files/dirs; small build with block-boundary sizes); damage = nothing (valid directory), every single damage of the C05 list (one representative per file/boundary class), subtree-hiding kind swaps (directory -> file, -> dangling symlink, -> symlink to a sibling with equal child names, -> symlink to another existing directory, file/symlink -> non-empty directory), directory emptied / removed, whole tree emptied / missing, random combinations of 2-5; each damaged tree is healed by Validate+HealPath from a zip made by wharf's CompressZip under schedules validator-first, healer-first (forced at the verif hooks, bounded waits) and seeded perturbation with GOMAXPROCS 1/4/16. Oracle: returned (quiescence detector), no error, every signed entry exact (independent tree comparison, extra files allowed), AssertValid nil; valid directory: inode/mtime/size/checksum unchanged. distinct = distinct (build, damage classes, schedule, GOMAXPROCS)",
 		Assumptions: []string{"schedule space is sampled: two forced orders + seeded perturbation; the evidence counts runs in which a hidden child was checked before / after its parent was healed", "extra (unsigned) files may remain"},
 		Flavors: func(tier string) []string {
 			if tier == "thorough" {
